@@ -27,6 +27,7 @@ theorem specStep_de (a : ASt) (f : Nat → Bool) (op : Op) :
     (specStep a f op).delay = a.delay ∧ (specStep a f op).epoch = a.epoch := by
   cases op with
   | release r => exact specRelease_de a f r
+  | resetRoutine k cs => simp only [specStep]; split <;> exact ⟨rfl, rfl⟩
   | _ => exact ⟨rfl, rfl⟩
 
 /-- a call only appends references and releases references -/
@@ -63,6 +64,7 @@ theorem specStep_live (a : ASt) (f : Nat → Bool) (op : Op) :
       split at hh
       · cases hh
       · rw [hh]
+  | resetRoutine k cs => simp only [specStep]; split <;> exact ⟨Nat.le_refl _, fun _ _ _ h => h⟩
   | _ => exact ⟨Nat.le_refl _, fun _ _ _ h => h⟩
 
 /-- the part of the knowledge that survives overlapping calls -/
